@@ -27,7 +27,7 @@ def _pm(values):
 def alphabets(ctx):
     rate = _pm([0, 1, 2, 3, P29, P30, P30 + 1, P31 - 2, P31 - 1, 123456789]) | {P30 - 1}
     accel = _pm([0, 1, 2, 3, 5, P27, P27 + 1, 50353403, P30, P30 + 1, P31 - 1])
-    accum = ["clear", 0, 1, P30, P31 - 2, P31 - 1]
+    accum = [core.RUNTIME_CLEAR, 0, 1, P30, P31 - 2, P31 - 1]
     ticks = 64
     extra = 3
     if ctx.thorough:
